@@ -408,8 +408,8 @@ _RA = ["thermodynamic factor > 0, R_sphere > 0, R_sphere < Rmax, tol > 0",
        "only exits through the tolerance test are claimed (the 100-iteration give-up returns R_sphere and is outside the claim)",
        "a root is 'bracketed' when f(R_sphere) and f(Rmax) have strictly opposite signs"]
 HARNESSES = [
-    Harness("C15.purity", purity, functions=_FN, assumptions=_A, bounds={"array length": "n"},
-            params={"quick": _pur_q, "thorough": [dict(p, n=3) for p in _pur_q]}),
+    Harness("C15.purity", purity, functions=_FN, assumptions=_A, bounds={"array length": "n (thorough: 3 for the algebraic factors and the sphere, 2 otherwise)"},
+            params={"quick": _pur_q, "thorough": _pur_q + [dict(p, n=3) for p in _pur_q if p["shape"] == "sphere" or p["fn"] in ("normalRadii", "eqRadiusFactor")]}),
     Harness("C15.radii", radii, functions=_FN, assumptions=_A + ["aspect ratio <= 100; unit volume to 1e-9 (the code's cbrt(3/(4 pi)) is a rounded double)"],
             params={"quick": [{"shape": s, "arr": False} for s in _SHAPES] + [{"shape": "needle", "arr": True}, {"shape": "plate", "arr": True}],
                     "thorough": [{"shape": s, "arr": a} for s in _SHAPES for a in (False, True)]}),
@@ -433,7 +433,8 @@ HARNESSES = [
             params={"quick": [{"kind": "uf", "n0": 0}, {"kind": "uf", "n0": 98}, {"kind": "uf", "n0": 99}],
                     "thorough": [{"kind": "uf", "n0": n0} for n0 in (0, 1, 50, 98, 99)]}),
     Harness("C15.rcrit_run", rcrit_run, functions=_FN, assumptions=_A + _RA, bounds={"bisection iterations": "<= k (longer runs are cut off; the inductive step covers them)"},
-            params={"quick": [{"kind": "uf", "k": 2}, {"kind": "needle", "k": 1}], "thorough": [{"kind": "uf", "k": 4}, {"kind": "needle", "k": 2}, {"kind": "plate", "k": 2}]}),
+            opts={"max_paths": 2500}, budget={"quick": 120.0, "thorough": 900.0},
+            params={"quick": [{"kind": "uf", "k": 2}, {"kind": "needle", "k": 1}], "thorough": [{"kind": "uf", "k": 3}, {"kind": "needle", "k": 2}, {"kind": "plate", "k": 1}]}),
     Harness("C15.rcrit_scalar", rcrit_scalar, functions=_FN, assumptions=_A,
             params={"quick": [{"shape": s} for s in _SHAPES], "thorough": [{"shape": s} for s in _SHAPES]}),
 ]
